@@ -190,6 +190,26 @@ def gen_retry(rng, tier, timers_only=False):
         f2 = flags & ~(16 | 32 | 64)          # UDP first, EDNS on, retries allowed
         return "retry|%d,%d,%d,%d,%d,%d,%d|%s" % (rng.choice([1, 1, 2, 3]), rng.choice([1, 1, 2, 3, 4]), timeout, maxt, jmode, f2, t0,
                                                     ";".join(a for a in acts if a))
+    if not timers_only and rng.random() < 0.07:
+        # numeric extremes: many tries answered PROMPTLY with error rcodes, so that rounds 30..70+
+        # are reached while the clock stands still; no maxtimeout (or a huge one): the waits are the
+        # saturating doubling itself (up to 2^63-1 ms).  Every re-send must still be accounted for
+        # by a reply, and the attempt finally left alone must wait at least the base timeout.
+        S2 = rng.choice([1, 1, 1, 2])
+        tries2 = rng.choice([45, 50, 64, 65, 70, 100, 120, 200 // S2])
+        to2 = rng.choice([1, 250, 2000, 5000, 2147483, 2147483647])
+        mt2 = rng.choice([0, 0, 0, 2147483647])
+        n = rng.choice([S2 * 30, S2 * 43, S2 * 44, S2 * 52, S2 * 64, S2 * tries2 - 1, S2 * tries2, rng.randint(S2 * 30, S2 * tries2)])
+        n = min(n, S2 * tries2)
+        acts = []
+        for i in range(n):
+            r = rng.random()
+            acts.append("R" + rng.choice("snr") if r < 0.9 else rng.choice(["X", "Bsg", "Rs2", "o1", "Rz"]))
+        tail = rng.choice(["", "", "t", "e", "Ra", "t;t"])
+        if tail:
+            acts.append(tail)
+        f2 = flags & ~(4 | 64)          # rcodes checked, retries allowed
+        return "retry|%d,%d,%d,%d,%d,%d,%d|%s" % (S2, tries2, to2, mt2, jmode, f2, rng.choice([0, 1000, 10 ** 9]), ";".join(acts))
     style = "timers" if timers_only else rng.choice(["timeouts", "timeouts", "mixed", "mixed", "replies", "faults", "servers", "dups", "batches", "batches"])
     n = 0 if style == "timeouts" else rng.choice([1, 2, 4, 8, 16, 30])
     cur = S
